@@ -45,7 +45,7 @@ theorem totalLen_step {i : Inst} {s : State} (hwf : WF i) (hi : Inv i s) (hopen 
       (if (i.openMode && decide (a < i.K) && decide (i.K ≤ s.cur)) = true then 0
        else if a < i.K ∧ s.cur < i.K then 0 else i.D s.cur a)) := by
     have hd0 : (if backFlag i s a = true then a else s.depot) = 0 := hdep
-    simp only [step, hd0, openZero_eq]
+    simp only [step, stepF, depotSel_asCoded, hd0, openZero_eq, depotLeg_eq, decide_eq_true_eq]
   simp only [totalLen, lens, hlen, hwf.kg]
   rw [sum_range_upd i.K s.len 0 _ (by omega)]
   by_cases haK : a < i.K
